@@ -188,7 +188,7 @@ func TestC08Rapid(t *testing.T) {
 				kind := ""
 				d := rapid.SampledFrom(w.denoms).Draw(rt, "denom")
 				amt := int64(rapid.IntRange(0, 100000).Draw(rt, "amt"))
-				if hk := rapid.IntRange(0, 11).Draw(rt, "hook"); hk < 8 && to == recipient.Str {
+				if hk := rapid.IntRange(0, 12).Draw(rt, "hook"); hk < 9 && to == recipient.Str {
 					num, seq := accInfo(tc.l2, recipient)
 					l2d := tcL2Denom(tc, d)
 					send := func(v int64) sdk.Msg {
@@ -211,6 +211,13 @@ func TestC08Rapid(t *testing.T) {
 						// one message that writes before it fails: the bank debits a transfer coin by coin, the bridged
 						// coin first, and the second coin cannot be afforded
 						kind, msgs = "hook-single-message-fails-half-way", []sdk.Msg{banktypes.NewMsgSend(recipient.Addr, tc.users[0].Addr, sdk.NewCoins(sdk.NewCoin(l2d, math.OneInt()), sdk.NewCoin("stake", math.NewInt(1<<50))))}
+					case 8:
+						// a withdrawal followed by more transfers than the hook's gas allowance pays for
+						msgs = []sdk.Msg{wdraw}
+						for k := 0; k < 60; k++ {
+							msgs = append(msgs, banktypes.NewMsgSend(recipient.Addr, tc.users[0].Addr, sdk.NewCoins(coinOf("stake", 1))))
+						}
+						kind = "hook-withdraws-then-runs-out-of-gas"
 					case 7:
 						// one message that burns before it fails: native tokens cannot be withdrawn
 						kind, msgs = "hook-withdraws-native-token", []sdk.Msg{opchildtypes.NewMsgInitiateTokenWithdrawal(recipient.Str, "l1-target", coinOf("stake", 2))}
